@@ -78,6 +78,10 @@ IdctStart ==
     /\ IF E.ret # "ok" THEN Diag("IMPL", "idct-no-return", "idct-no-return", E.ret) /\ UNCHANGED acc /\ NextLine
        ELSE IF b > Len(E.blocks) THEN UNCHANGED acc /\ NextLine
        ELSE g' = Pass1(F) /\ phase' = 1 /\ UNCHANGED <<l, b, acc, f12, tol>>
+(* "cw" x "ch": the output plane may be smaller than the block (edge of a picture whose size is no multiple of 8) *)
+Cw == IF "cw" \in DOMAIN E THEN E.cw ELSE 8
+Ch == IF "ch" \in DOMAIN E THEN E.ch ELSE 8
+InCrop(k) == ((k - 1) % 8) < Cw /\ ((k - 1) \div 8) < Ch
 (* the signed residual observed through the two unsigned outputs *)
 Resid(k) == IF E.out0[b][k] > 0 THEN E.out0[b][k] ELSE E.out255[b][k] - 255
 IdctPass2 ==
@@ -93,8 +97,11 @@ IdctCompare ==
            \* ... and the rounded ideal value itself (reference of Annex A): exact up to the reference's own error
            refr == [k \in 1..64 |-> LET r == RoundRange(f12[k], 1) IN <<Clamp(r[1], -255, 255), Clamp(r[2], -255, 255)>>]
            res == [k \in 1..64 |-> Resid(k)]
-           err == [k \in 1..64 |-> IF res[k] < refr[k][1] THEN res[k] - refr[k][1] ELSE IF res[k] > refr[k][2] THEN res[k] - refr[k][2] ELSE 0]
-           bad == SelectInSeq([k \in 1..64 |-> res[k] < allow[k][1] \/ res[k] > allow[k][2] \/ Abs(err[k]) > 1], LAMBDA t : t)
+           err == [k \in 1..64 |-> IF ~InCrop(k) THEN 0
+                                    ELSE IF res[k] < refr[k][1] THEN res[k] - refr[k][1] ELSE IF res[k] > refr[k][2] THEN res[k] - refr[k][2] ELSE 0]
+           \* outside the plane nothing may be written (the pre-fill values 0 / 255 must still be there)
+           bad == SelectInSeq([k \in 1..64 |-> IF InCrop(k) THEN res[k] < allow[k][1] \/ res[k] > allow[k][2] \/ Abs(err[k]) > 1
+                                               ELSE E.out0[b][k] # 0 \/ E.out255[b][k] # 255], LAMBDA t : t)
            a == AccOf(Set)
        IN
        /\ IF bad # 0
